@@ -11,8 +11,8 @@
 
 void ctl_get_dir(char *buf, size_t capacity);
 
-void ctl_derive_path(const char *ctl_dir, pid_t creator_pid, int64_t sock_ref,
-		     char *buf, size_t capacity);
+int ctl_derive_path(const char *ctl_dir, pid_t creator_pid, int64_t sock_ref,
+		    char *buf, size_t capacity);
 
 bool ctl_parse_info(const char *filename, pid_t *creator_pid, int64_t *sock_ref);
 
